@@ -145,6 +145,8 @@ func runC08(c *Ctx) {
 
 	// ---------- R4 ----------
 	checkIssuersPersistEveryAddress(c, "C08-R2")
+	checkStartBlockDecision(c, "C08-R2")
+	checkImportAddressIDAgreesWithConstructor(c, "C08-R3")
 	checkDerivationPathLiterals(c, "C08-R3")
 	checkRowRewrites(c, "C08-R4")
 	c.Advisory("Manager.SetBirthday stores the in-memory birthday before writing it (outside the property's query list)")
